@@ -488,6 +488,59 @@ func runTruncateBig(c *core.Ctx) {
 	}
 }
 
+// runTruncateHuge: files larger than 32 MiB on disk (multi-stream files: a 3 MB member repeated),
+// damaged in their last stream - what a reader that treats big files differently (another decoder,
+// a helper process, memory mapping) must still report. xz, bzip2, zstd and gzip in turn.
+func runTruncateHuge(c *core.Ctx) {
+	codec := []string{"xz", "bzip2", "zstd", "gzip"}[c.Idx%4]
+	text := seqText(c.Rng, 36000, false) // about 3 MB
+	member, err := gen.Compress(codec, text)
+	if err != nil || len(member) == 0 {
+		c.Inconclusive("cannot compress")
+		return
+	}
+	copies := (33<<20)/len(member) + 2
+	comp := bytes.Repeat(member, copies)
+	last := len(member) * (copies - 1)
+	base := filepath.Join(c.Dir, fmt.Sprintf("huge%d.fasta%s", c.Idx, gen.CodecExt(codec)))
+	defer os.Remove(base)
+	run := func() cmdx.Res {
+		return cmdx.Run(filepath.Join(c.BinDir, "obicount"), []string{"--max-cpu", "4", base}, cmdx.Opt{Timeout: 600 * time.Second})
+	}
+	os.WriteFile(base, comp, 0o644)
+	c.Risk("obicount on a " + codec + " file of " + fmt.Sprint(len(comp)>>20) + " MiB")
+	intact := run()
+	if intact.TimedOut {
+		c.Inconclusive("watchdog on the intact huge file")
+		return
+	}
+	if intact.Exit != 0 {
+		c.Violate("intact-rejected:huge:"+codec, "the intact multi-stream file is rejected", map[string]any{"codec": codec, "bytes": len(comp), "streams": copies, "stderr": cmdx.Tail(intact.Stderr, 800)})
+		return
+	}
+	c.Sample(map[string]any{"codec": codec, "file_bytes": len(comp), "streams": copies, "records": 36000 * copies, "faults": "cut in the middle of / 5 bytes into the last stream (the file stays above 32 MiB)"})
+	for _, f := range []struct {
+		name string
+		at   int
+	}{{"mid-last-stream", last + len(member)/2}, {"5-bytes-into-last-stream", last + 5}} {
+		os.WriteFile(base, comp[:f.at], 0o644)
+		res := run()
+		c.Count("evaluations", 1)
+		c.Count("truncation_points", 1)
+		c.Key("huge/%s/%s", codec, f.name)
+		if res.TimedOut {
+			c.Inconclusive("watchdog on a truncated huge file")
+			continue
+		}
+		det := map[string]any{"codec": codec, "file_bytes": f.at, "of": len(comp), "streams": copies, "fault": f.name, "stdout": cmdx.Tail(res.Stdout, 300), "stderr": cmdx.Tail(res.Stderr, 600)}
+		if memoryFault(res) {
+			c.Violate("memory-fault:huge:"+codec, "the command dies of a memory fault on a truncated input", det)
+		} else if res.Exit == 0 {
+			c.Violate(fmt.Sprintf("exit0:%s:huge:%s", codec, f.name), "the command exits 0 although its compressed input (more than 32 MiB on disk) is cut short", det)
+		}
+	}
+}
+
 // runTruncateAsan: the stdin path decodes gzip inside C code (kseq + zlib): truncated and bit-flipped
 // gzip streams through an AddressSanitizer build of obiconvert. Oracle: the exit status as
 // elsewhere, and no sanitizer report.
@@ -868,12 +921,13 @@ func init() {
 	}
 	subs = append(subs, core.Sub{Name: "gzip-stdin-asan", N: core.Const(4, 24), TimeoutS: 3000, Run: runTruncateAsan})
 	subs = append(subs, core.Sub{Name: "truncate-big", N: core.Const(16, 48), TimeoutS: 3000, Run: runTruncateBig})
+	subs = append(subs, core.Sub{Name: "truncate-huge", N: core.Const(2, 4), Shard: 1, TimeoutS: 3000, Run: runTruncateHuge})
 	subs = append(subs, core.Sub{Name: "readerr", N: core.Const(32, 128), Run: runReadErr})
 	core.Register(&core.Property{
 		ID:    "C17",
 		Level: "fault_enumeration",
 		Rule: "fault points on compressed FASTA/FASTQ files (gzip, bzip2, xz, zstd; one member/frame each; 1..3000 records): truncation at byte k (every k from 6 for files up to 40 bytes in quick / 4 KiB in thorough, else the first and last 12 offsets plus 40/200 sampled ones), single bit flips (every bit up to 1 KiB in thorough, sampled otherwise), through obiconvert / obicount / obigrep with a file argument and, for gzip, obiconvert reading stdin; plus the four Read* functions over a reader returning a non-EOF error after k bytes (helper process). Oracle: exit status (truncation, read error => non-zero; bit flip => non-zero or output identical to the intact run). " +
-			"Added later: decoder-error oracle for bit flips, forced-format and two-file targets (after a plain file and after an intact file of the same codec), damaged mate file, compressed EMBL/GenBank, read errors delivered alone / with data / once only, files of 2-3 MiB and long reads, gzip/zstd streams flushed between records and cut at the flush points, the xz block-header-size bits on every target, AddressSanitizer runs of the stdin (C) reader; a process killed by a memory fault is a violation. " +
+			"Added later: decoder-error oracle for bit flips, forced-format and two-file targets (after a plain file and after an intact file of the same codec), damaged mate file, compressed EMBL/GenBank, read errors delivered alone / with data / once only, files of 2-3 MiB and long reads, gzip/zstd streams flushed between records and cut at the flush points, the xz block-header-size bits on every target, AddressSanitizer runs of the stdin (C) reader; a process killed by a memory fault is a violation. Files made of several members / streams / frames (cuts and bit flips in the header of a later member; a cut exactly between two members is not a fault), truncate-huge: multi-stream files of more than 32 MiB damaged in their last stream. " +
 			"distinct_nontrivial = distinct (fault kind, codec or format, command+transport, size class, region header/body/trailer) classes exercised",
 		Assume:        []string{"each compressed file is a single member/frame, so every proper prefix of at least 6 bytes is an invalid stream", "stdin is only exercised with gzip (the stdin reader is zlib based)"},
 		Subs:          subs,
